@@ -617,6 +617,20 @@ pub fn run_c13(ctx: &Ctx, rep: &mut Report) {
                         t.into_iter().collect()
                     }
                 }
+                7 if rng.chance(1, 2) => {
+                    // a valid move (often with promotion geometry) followed by a notation-like tail:
+                    // check/mate signs, '=', upper- and lower-case piece letters in any arrangement
+                    let (s, d) = if rng.chance(1, 2) {
+                        let f = rng.below(8) as i8;
+                        let df = rng.range(0, 2) as i8 - 1;
+                        let (r0, r1) = if rng.chance(1, 2) { (6i8, 7i8) } else { (1, 0) };
+                        (mk(f, r0).unwrap(), mk((f + df).max(0).min(7), r1).unwrap())
+                    } else {
+                        (rng.below(64) as u8, rng.below(64) as u8)
+                    };
+                    let tail = random_text(rng, &["+", "#", "=", "q", "r", "n", "b", "Q", "R", "N", "B", "x", "-", "e.p.", " ", "!", "?"], 4);
+                    format!("{}{}{}", sq_name(s), sq_name(d), tail)
+                }
                 _ => format!("{}{}", sq_name(rng.below(64) as u8), random_text(rng, &["a", "h", "1", "8", "q", "é", " "], 4)),
             };
             if i == 0 {
